@@ -15,6 +15,7 @@ import (
 	blocks "github.com/ipfs/go-block-format"
 	"github.com/ipld/go-ipld-prime"
 	"github.com/ipld/go-ipld-prime/datamodel"
+	"github.com/ipld/go-ipld-prime/traversal"
 	cidlink "github.com/ipld/go-ipld-prime/linking/cid"
 	"github.com/libp2p/go-libp2p/core/peer"
 
@@ -79,6 +80,8 @@ type Env struct {
 	Protects        map[string]int
 	Unprotects      map[string]int
 	Reqs            []*Req
+	Chooser         traversal.LinkTargetNodePrototypeChooser
+	Panics          []any
 }
 
 type persist struct{}
@@ -95,7 +98,8 @@ func NewEnv(dag *kit.DAG, has []bool, workers int, maxLinksGlobal uint64) *Env {
 	e.TQ = taskqueue.NewTaskQueue(ctx)
 	nel := listeners.NewNetworkErrorListeners()
 	nel.Register(func(p peer.ID, r graphsync.RequestData, err error) { e.NetErrs++ })
-	e.RM = requestmanager.New(ctx, persist{}, e.Store.LinkSystem(), e, e, nel, listeners.NewRequestProcessingListeners(), e.TQ, e, maxLinksGlobal, nil)
+	e.Chooser = kit.Chooser
+	e.RM = requestmanager.New(ctx, persist{}, e.Store.LinkSystem(), e, e, nel, listeners.NewRequestProcessingListeners(), e.TQ, e, maxLinksGlobal, func(obj any, stack string) { e.Panics = append(e.Panics, obj) })
 	e.RM.SetDelegate(e)
 	e.Ex = executor.NewExecutor(e.RM, e)
 	if workers > 0 {
@@ -127,7 +131,7 @@ func (e *Env) AllocateAndBuildMessage(p peer.ID, size uint64, fn func(*messagequ
 // --- hooks
 
 func (e *Env) ProcessRequestHooks(p peer.ID, request graphsync.RequestData) hooks.RequestResult {
-	return hooks.RequestResult{CustomChooser: kit.Chooser, MaxLinks: e.MaxLinksPerReq}
+	return hooks.RequestResult{CustomChooser: e.Chooser, MaxLinks: e.MaxLinksPerReq}
 }
 
 func (e *Env) ProcessResponseHooks(p peer.ID, response graphsync.ResponseData) hooks.UpdateResult {
